@@ -539,7 +539,7 @@ impl Prop for C25 {
     "case = (schema, abstract history of upsert batches / deletes / commits / compaction with occasional rejected documents, searches as JSON requests, CLI flag sets and FFI argument tuples); the history runs through the CLI binary, the HTTP service and the FFI, each next to a twin directory driven by the equivalent Rust API calls; every front-end operation and every search is one evaluation; an evaluation is non-trivial when it changes or reads non-empty contents (a commit that applies ≥ 1 operation, a rejected batch, a search with ≥ 1 hit or an aggregation, a rejected flag set); distinct = distinct (front end, operation/search, history prefix) JSON"
   }
   fn count(&self, tier: Tier) -> usize {
-    tier.pick(20, 200)
+    tier.pick(20, 600)
   }
   fn gen(&self, rng: &mut Rng, tier: Tier, i: usize) -> Value {
     let schema_i = i % 3; // 0 default text, 1 rich (tag/year), 2 non-stored fast field (compaction refuses)
